@@ -289,3 +289,144 @@ Example C01_nonvacuous :
 Proof.
   eexists. split; [vm_compute; reflexivity|]. split; [exact I|]. repeat split; vm_compute; reflexivity.
 Qed.
+
+(* ===================================================================================== *)
+(* Part 6: serde's keys of conventional fields lie in the key domain                      *)
+(* (so the key-domain hypothesis of the end-to-end theorem follows from the source-side   *)
+(* quantifier for the five languages that bind keys; Scala additionally needs "no '-'")   *)
+(* ===================================================================================== *)
+Local Ltac kc := unfold c01_key_char, snake_char, is_aalpha, is_alower, is_aupper, is_adigit, aupper, alower, ch_us, ch_dash in *.
+
+Lemma kc_upper c : c01_key_char c = true -> c01_key_char (aupper c) = true.
+Proof. unfold aupper. destruct (is_alower c) eqn:E; [|auto]. intros _. kc. lia. Qed.
+Lemma kc_lower c : c01_key_char c = true -> c01_key_char (alower c) = true.
+Proof. unfold alower. destruct (is_aupper c) eqn:E; [|auto]. intros _. kc. lia. Qed.
+Lemma kc_snake c : snake_char c = true -> c01_key_char c = true.
+Proof. kc. lia. Qed.
+
+Lemma forallb_map_pres {A} (p : A -> bool) (f : A -> A) l : (forall x, p x = true -> p (f x) = true) ->
+  forallb p l = true -> forallb p (map f l) = true.
+Proof.
+  intros Hf. induction l as [|x r IH]; cbn [forallb map]; [reflexivity|]. intros H. apply andb_true_iff in H as [Hx Hr].
+  now rewrite (Hf x Hx), (IH Hr).
+Qed.
+
+Lemma kc_pascal s : forall cap, forallb c01_key_char s = true -> forallb c01_key_char (sd_pascal_go cap s) = true.
+Proof.
+  induction s as [|c r IH]; intros cap H; cbn [sd_pascal_go forallb] in *; [reflexivity|].
+  apply andb_true_iff in H as [Hc Hr]. destruct (c =? ch_us); [now apply IH|].
+  destruct cap; cbn [forallb]; rewrite (IH false Hr), ?(kc_upper c Hc), ?Hc; reflexivity.
+Qed.
+
+Lemma pascal_nonempty s : forall cap, existsb (fun c => negb (c =? ch_us)) s = true -> sd_pascal_go cap s <> [].
+Proof.
+  induction s as [|c r IH]; intros cap H; cbn [sd_pascal_go existsb] in *; [discriminate|].
+  destruct (c =? ch_us); cbn [negb orb] in H; [now apply IH|]. destruct cap; discriminate.
+Qed.
+
+Lemma map_nonempty {A B} (f : A -> B) l : l <> [] -> map f l <> [].
+Proof. destruct l; [congruence|discriminate]. Qed.
+
+Lemma key_ok_intro k : k <> [] -> forallb c01_key_char k = true -> c01_key_ok k = true.
+Proof. destruct k; [congruence|]. intros _ H. exact H. Qed.
+
+Lemma apply_to_field_key_ok r s k : conv_field s = true -> apply_to_field r s = Some k -> c01_key_ok k = true.
+Proof.
+  unfold conv_field. intros H. apply andb_true_iff in H as [Hs Hne].
+  assert (Hk : forallb c01_key_char s = true).
+  { clear Hne. induction s as [|c t IH]; cbn [forallb] in *; [reflexivity|]. apply andb_true_iff in Hs as [Hc Ht].
+    now rewrite (kc_snake c Hc), (IH Ht). }
+  assert (Hn : s <> []) by (destruct s; [discriminate|discriminate]).
+  assert (Hrep : forall t, forallb c01_key_char t = true -> forallb c01_key_char (replace_char ch_us ch_dash t) = true).
+  { intros t. unfold replace_char. apply forallb_map_pres. intros x Hx. destruct (x =? ch_us); [reflexivity|exact Hx]. }
+  assert (Hup : forall t, forallb c01_key_char t = true -> forallb c01_key_char (str_upper_ascii t) = true).
+  { intros t. unfold str_upper_ascii. apply forallb_map_pres. exact kc_upper. }
+  destruct r; cbn [apply_to_field]; try (intros [= <-]).
+  - now apply key_ok_intro.
+  - apply key_ok_intro; [now apply map_nonempty|now apply Hup].
+  - apply key_ok_intro; [now apply pascal_nonempty|now apply kc_pascal].
+  - unfold lower_first. pose proof (pascal_nonempty s true Hne) as Hp. pose proof (kc_pascal s true Hk) as Hq.
+    destruct (sd_pascal_go true s) as [|c t]; [congruence|]. destruct (c <? 128); [|discriminate]. intros [= <-].
+    cbn [forallb] in Hq. apply andb_true_iff in Hq as [Hc Ht]. cbn [c01_key_ok forallb]. now rewrite (kc_lower c Hc), Ht.
+  - now apply key_ok_intro.
+  - apply key_ok_intro; [now apply map_nonempty|now apply Hup].
+  - apply key_ok_intro; [unfold replace_char; now apply map_nonempty|now apply Hrep].
+  - apply key_ok_intro; [unfold replace_char, str_upper_ascii; now apply map_nonempty, map_nonempty|now apply Hrep, Hup].
+Qed.
+
+Lemma field_key_key_ok ra attrs ident k : conv_field (unraw ident) = true ->
+  c01_rename_ok (serde_nv attrs (lit "rename")) = true ->
+  field_key ra attrs ident = Some k -> c01_key_ok k = true.
+Proof.
+  intros Hc Hr. unfold field_key. destruct (serde_nv attrs (lit "rename")) as [r|].
+  - intros [= <-]. cbn [c01_rename_ok] in Hr. unfold c01_rename_value_ok in Hr. destruct r as [|c t]; [discriminate|].
+    apply andb_true_iff in Hr as [_ Hr]. exact Hr.
+  - unfold serde_field_name. destruct ra as [rs|].
+    + destruct (rule_from_str rs) as [r|].
+      * exact (apply_to_field_key_ok r _ k Hc).
+      * intros [= <-]. exact (apply_to_field_key_ok SnakeCase _ _ Hc eq_refl).
+    + intros [= <-]. exact (apply_to_field_key_ok SnakeCase _ _ Hc eq_refl).
+Qed.
+
+Section DomT.
+Variable T : list str.
+
+Lemma src_field_keys_ok ra l ks : forallb (src_field_dom) (kept_fields T l) = true ->
+  src_field_keys T ra l = Some ks -> forallb c01_key_ok ks = true.
+Proof.
+  unfold src_field_keys. generalize (kept_fields T l) as fs. intros fs. revert ks.
+  induction fs as [|f fs IH]; intros ks Hd; cbn [map c01_opt_all forallb] in *.
+  - intros [= <-]. reflexivity.
+  - apply andb_true_iff in Hd as [Hf Hfs]. unfold src_field_key at 1. unfold src_field_dom in Hf.
+    destruct (f_ident f) as [i|]; [|discriminate]. apply andb_true_iff in Hf as [Hc Hr].
+    destruct (field_key ra (f_attrs f) i) as [k|] eqn:Ek; [|discriminate].
+    destruct (c01_opt_all _) as [xs|] eqn:Ex; [|discriminate]. intros [= <-]. cbn [forallb].
+    now rewrite (field_key_key_ok ra _ i k Hc Hr Ek), (IH xs Hfs eq_refl).
+Qed.
+
+Lemma c01_opt_all_app_inv {A} (a b : list (option A)) xs : c01_opt_all (a ++ b) = Some xs ->
+  exists xa xb, c01_opt_all a = Some xa /\ c01_opt_all b = Some xb /\ xs = xa ++ xb.
+Proof.
+  revert xs. induction a as [|o a IH]; intros xs H; cbn [app c01_opt_all] in *.
+  - exists [], xs. auto.
+  - destruct o as [x|]; [|discriminate]. destruct (c01_opt_all (a ++ b)) as [ys|] eqn:E; [|discriminate].
+    injection H as <-. destruct (IH ys eq_refl) as (xa & xb & -> & Hb & ->). exists (x :: xa), xb. auto.
+Qed.
+
+(* the source-side quantifier implies the key domain for every language that binds keys *)
+Theorem src_dom_key_dom (l : lang) it expected : l <> Scala -> src_dom T it = true -> src_groups T it = Some expected ->
+  dom_C01 l expected = true.
+Proof.
+  intros Hl Hd He.
+  assert (G : forallb (forallb c01_key_ok) expected = true -> dom_C01 l expected = true).
+  { unfold dom_C01, dom_group. clear -Hl. induction expected as [|g r IH]; cbn [forallb]; [reflexivity|]. intros H.
+    apply andb_true_iff in H as [Hg Hr]. rewrite Hg, (IH Hr). destruct l; try reflexivity. congruence. }
+  apply G. clear G. destruct it as [attrs ident gens fs|attrs ident gens vs| | | |]; cbn [src_groups src_dom] in *;
+    try (injection He as <-; reflexivity).
+  - destruct fs as [fl|fl|]; cbn [src_struct_groups] in He; try (injection He as <-; reflexivity).
+    unfold src_fields_dom in Hd. apply andb_true_iff in Hd as [_ Hd].
+    destruct (src_field_keys T _ fl) as [ks|] eqn:Ek; [|discriminate]. injection He as <-. cbn [forallb].
+    now rewrite (src_field_keys_ok _ _ _ Hd Ek).
+  - apply andb_true_iff in Hd as [_ Hd]. unfold src_enum_groups in He. revert expected He Hd.
+    generalize (kept_variants T vs) as kv. induction kv as [|v kv IH]; intros expected He Hd; cbn [flat_map forallb] in *.
+    + injection He as <-. reflexivity.
+    + apply andb_true_iff in Hd as [Hv Hkv]. apply c01_opt_all_app_inv in He as (xa & xb & Ha & Hb & ->).
+      rewrite forallb_app, (IH xb Hb Hkv), andb_true_r. unfold src_variant_groups in Ha.
+      destruct (v_fields v) as [fl|fl|]; try (injection Ha as <-; reflexivity).
+      cbn [c01_opt_all] in Ha. destruct (src_field_keys T _ fl) as [ks|] eqn:Ek; [|discriminate]. injection Ha as <-.
+      unfold src_fields_dom in Hv. apply andb_true_iff in Hv as [_ Hv]. cbn [forallb]. now rewrite (src_field_keys_ok _ _ _ Hv Ek).
+Qed.
+End DomT.
+
+(* End to end without a key-domain hypothesis, for the five languages that bind keys *)
+Theorem C01_end_to_end_binding (uc : unicode) (Huc : unicode_ok uc) (tstr : str -> option ty) (T : list str)
+    (l : lang) it rit expected (gs : list (list member)) :
+  l <> Scala ->
+  parses uc tstr T it rit -> c01_shape it rit -> src_dom T it = true ->
+  src_groups T it = Some expected ->
+  groups_fit l (ir_groups rit) gs ->
+  good_groups_C01 l expected gs = true.
+Proof.
+  intros Hl Hp Hs Hd He Hf.
+  exact (C01_end_to_end uc Huc tstr T l it rit expected gs Hp Hs Hd He (src_dom_key_dom T l it expected Hl Hd He) Hf).
+Qed.
